@@ -373,7 +373,7 @@ def sync_explore(run, prefixes, runs, procs=8):
         for f in (tp, op):
             if os.path.exists(f):
                 os.remove(f)
-        r = vlib.run_bin(binp, ["-test.run", "^TestSyncExplore$", "-test.timeout", "3000s", "-test.count", "1"],
+        r = vlib.run_bin(binp, ["-test.run", "^TestSyncExplore$", "-test.timeout", "900s" if run.tier == "quick" else "3000s", "-test.count", "1"],
                          env_extra={"VH_TRACE": tp, "VH_OUT": op, "VH_RUNS": per, "VH_IDBASE": 2000000 + i * per,
                                     "VERIF_SEED": vlib.seed(), "GOLOG_LOG_LEVEL": "error"}, timeout=3100)
         if r.returncode != 0:
